@@ -85,6 +85,11 @@ impl MReq {
     }
     /// the verdict as far as the statements pin it
     fn pinned(&self, now: u64) -> Verdict { if self.send_c && !self.recv_c { Verdict::Free } else { self.verdict(now) } }
+    /// the instant by which the whole remaining schedule (remaining retransmission intervals + final timeout) has run out; a transaction
+    /// whose retransmissions were cancelled must have ended by then at the latest (C05: every request ends)
+    fn schedule_end(&self) -> Option<u64> {
+        self.last_send.map(|l| l + self.sched.iter().skip(self.ti).sum::<u64>() + self.last_timeout)
+    }
 }
 
 #[derive(Clone, Debug)]
@@ -218,6 +223,7 @@ pub fn run_history(h: &[AOp], transport: TransportType, base: Instant, errs: &mu
                             else if free == 0 && Some(&w) != waits.iter().min() { bad!("C06:wait-not-earliest", "poll@{} answered WaitUntil({}) but the earliest instant any transaction needs service is {:?}", now, w, waits.iter().min()); }
                             else if free > 0 && waits.iter().min().map_or(false, |d| w > *d) { bad!("C06:wait-not-earliest", "poll@{} answered WaitUntil({}) but a transaction needs service already at {:?}", now, w, waits.iter().min()); }
                             if w <= now { bad!("C06:wait-not-future", "poll@{} answered WaitUntil({})", now, w); }
+                            for (k, r) in m.out.iter() { if r.pinned(now) == Verdict::Free { if let Some(e) = r.schedule_end() { if now > e { bad!("C05:never-ends", "poll@{} answered WaitUntil({}) although transaction {:#x}, whose retransmissions were cancelled, has outlived its whole schedule (end {})", now, w, k, e); } } } }
                             if let Some(t) = law { if now < t && w != t { bad!("C06:wait-not-stable", "poll@{} answered WaitUntil({}) although the previous poll answered WaitUntil({}) and nothing happened in between", now, w, t); }
                                                    if now >= t { bad!("C06:no-event-at-wakeup", "poll@{} answered WaitUntil({}) although the previous poll promised an event at {}", now, w, t); } }
                         }
